@@ -872,6 +872,17 @@ func (env *Env) call(e *Expr) Value {
 				t = IfVal(v.Tm) // the object an interface value wraps
 			}
 			return Value{T: B, Tm: Gt(t, env.old.alloc)}
+		case "allocated":
+			// allocated(x): the object / backing array of x exists in the state the clause is evaluated in (its reference is
+			// not above the allocation watermark): whatever is allocated afterwards is a different object
+			v := env.eval(args[0])
+			t, _ := env.st.tryPtrTerm(v)
+			if isSlice(v.T) {
+				t = SlRef(v.Tm)
+			} else if v.T != nil && isInterface(v.T) {
+				t = IfVal(v.Tm)
+			}
+			return Value{T: B, Tm: Le(t, env.st.alloc)}
 		case "typeis":
 			// typeis(x, T): dynamic type of interface x is T
 			v := env.eval(args[0])
